@@ -117,6 +117,7 @@ def gen_cases(rng, n):
         cases.append("XW " + spec)
     cases += ur_cases()
     cases += xl_cases()
+    cases += ["UA6 u", "UA6 16", "UA6 512", "UO u", "UO 32", "UO 512"]
     cases += big_udp_cases()
     cases += stats_sample_cases(rng, max(10, n // 10))
     for _ in range(n):
@@ -171,7 +172,7 @@ def xw_as_model_case(case, obs):
     if t[0] in ("XS", "BXS"):
         ops = ",".join(o for o in t[3].split(",") if o != "m")
         return ("X b q0 " if t[0] == "XS" else "BX %s q0 " % t[1]) + ops
-    if t[0] in ("UR", "XL") or (t[0] == "BU" and t[1].isdigit() and int(t[1]) > 65000):
+    if t[0] in ("UR", "XL", "UA6", "UO") or (t[0] == "BU" and t[1].isdigit() and int(t[1]) > 65000):
         return "UA 0 -"          # judged on the implementation's observation only
     if t[0] != "XW":
         return case
@@ -223,6 +224,52 @@ def judge_xl(t, obs):
                         "address)" % (st[3], att)))
         if att and st[2] == 0:
             bad.append(("C14", "bytes_dropped = 0 after %d refused sends" % att))
+    return bad
+
+
+def judge_ua6(t, obs):
+    """address list [IPv6 listener, IPv4 listener]: everything goes to the first resolved address"""
+    if obs == "noipv6":
+        return []
+    if obs.startswith("HARNESS-PANIC") or obs.startswith("ctor"):
+        return [("C13", "IPv6-first address list: " + obs[:160])]
+    parts = dict(x.split(":", 1) for x in obs.split("|"))
+    first = [bytes.fromhex(x) for x in parts["first"].split(";")] if parts["first"] else []
+    want = [b"six:1|c", "z\u00f6lf:12|ms".encode()] if t[1] == "u" else None
+    bad = []
+    if int(parts["second"]):
+        bad.append(("C13", "%s datagram(s) went to the second address of the list" % parts["second"]))
+    payload = b"".join(first) if t[1] == "u" else b"".join(first).replace(b"\n", b"")
+    if payload != b"six:1|c" + "z\u00f6lf:12|ms".encode() or (want is not None and first != want):
+        bad.append(("C13", "the first address of the list (IPv6, followed by an IPv4 one) received %r (results %s)" % (first, parts["R"])))
+    return bad
+
+
+def judge_uo(t, obs):
+    """a 70 000-byte metric through a UDP sink: the OS refuses the send; the refusal is a dropped packet"""
+    if obs.startswith("HARNESS-PANIC"):
+        return [(p, "oversized UDP datagram: " + obs[:160]) for p in ("C13", "C14")]
+    parts = dict(x.split(":", 1) for x in obs.split("|"))
+    res = parts["R"].split(",")
+    st = [int(x) for x in parts["S"].split(".")]
+    dg = [bytes.fromhex(x) for x in parts["D"].split(";")] if parts["D"] else []
+    big = 4 + 70000 + 2
+    bad = []
+    if any(len(d) > 65507 for d in dg):
+        return bad              # this OS delivered it: nothing to say
+    if t[1] == "u":
+        if res[:3] == ["k5", "e", "k5"]:
+            want = [10, 2, big, 1]
+            if st != want:
+                bad.append(("C14", "statistics %s, expected %s: the OS refused one send of %d bytes (too large for a datagram)" % (st, want, big)))
+        elif res[1][0] != "k":
+            bad.append(("C13", "results %s for small / 70 000-byte / small metrics" % parts["R"]))
+    else:
+        if st[1] + st[3] != int(parts["A"]):
+            bad.append(("C14", "packets_sent + packets_dropped = %d but %d sends were attempted (one of them refused as too large)" % (
+                st[1] + st[3], int(parts["A"]))))
+        if res[1] == "e" and st[2] < big:
+            bad.append(("C14", "bytes_dropped = %d after a refused send of %d bytes" % (st[2], big)))
     return bad
 
 
@@ -283,6 +330,10 @@ def judge(case, obs):
         return judge_ur(t, obs)
     if t[0] == "XL":
         return judge_xl(t, obs)
+    if t[0] == "UA6":
+        return judge_ua6(t, obs)
+    if t[0] == "UO":
+        return judge_uo(t, obs)
     if obs.startswith("HARNESS-PANIC"):
         return [("C13", obs[:200]), ("C14", obs[:200])]
     if t[0] in ("ST", "UC"):
@@ -525,7 +576,7 @@ def run_sock_check(prop, tier, seed):
         for i, c in enumerate(cases):
             if c.startswith("XW"):
                 impl[i], model[i] = xw_views(c, impl[i], model[i])
-            elif c.startswith("UR") or c.startswith("XL") or (c.startswith("BU ") and c.split()[1].isdigit() and int(c.split()[1]) > 65000):
+            elif c.split()[0] in ("UR", "XL", "UA6", "UO") or (c.startswith("BU ") and c.split()[1].isdigit() and int(c.split()[1]) > 65000):
                 model[i] = impl[i]                 # judged, not modelled
             elif c.startswith("XS") or c.startswith("BXS"):
                 # which listener got what is judged, not modelled; the `-` of op m is not in the model's results
